@@ -116,6 +116,12 @@ func (p *Parser) parseComparisonExpression() (ast.Expression, error) {
 
 		// Parse lower bound - use parseStringConcatExpression to support complex expressions
 		// like: price BETWEEN price * 0.9 AND price * 1.1
+		// The bounds may themselves contain BETWEEN without parentheses or a
+		// pass through parseExpression, so the nesting level is counted here.
+		if err := p.enterNesting(); err != nil {
+			return nil, err
+		}
+		defer p.leaveNesting()
 		lower, err := p.parseStringConcatExpression()
 		if err != nil {
 			return nil, goerrors.InvalidSyntaxError(
@@ -918,8 +924,14 @@ func (p *Parser) parsePrimaryExpression() (ast.Expression, error) {
 		}
 
 		// NOT followed by other expression (boolean negation)
-		// Parse at comparison level for proper precedence: NOT (a > b), NOT active
+		// Parse at comparison level for proper precedence: NOT (a > b), NOT active.
+		// NOT can be chained (NOT NOT NOT x) and this path does not go through
+		// parseExpression, so the nesting level is counted here.
+		if err := p.enterNesting(); err != nil {
+			return nil, err
+		}
 		expr, err := p.parseComparisonExpression()
+		p.leaveNesting()
 		if err != nil {
 			return nil, err
 		}
